@@ -1018,18 +1018,48 @@ TTestNdarray.accepts = lambda c, target_event_rates1, target_event_rates2, *r, *
     isinstance(target_event_rates1, Arr) and isinstance(target_event_rates2, Arr) and target_event_rates1.ndim == 1 and target_event_rates2.ndim == 1)
 
 
+from pyvc.models_sci import NORMSF, midrank_term
+
+
+def w_sample(c, x, m):
+    """the non-zero differences d' = compress(x - m != 0, x - m) as the code builds them (ghost of the mask selection)"""
+    sels = list((c.ctx.ghost.get('selections') or {}).values())
+    if not sels:
+        return None
+    g = sels[0]
+    sel, cnt = g['sel'], g['m']
+    d = Arr((cnt,), lambda ix: to_real(x.f((sel(to_z3(ix[0])),))) - to_real(m), 'float64', label='nonzero differences')
+    return d, cnt, sel
+
+
+def w_spec(c, d, n):
+    """Wilcoxon signed-rank quantities of the sample d[0..n) (all non-zero): T+, T-, tie term sum_i (c_i^2 - 1)"""
+    i = z3.Int('i!lam')
+    ad = Arr(d.shape, lambda ix: z3.If(to_real(d.f(ix)) >= 0, to_real(d.f(ix)), -to_real(d.f(ix))), 'float64')
+    rk = lambda t: midrank_term(ad, n, t)
+    tplus = SUM(z3.Lambda([i], z3.If(to_real(d.f((i,))) > 0, rk(i), z3.RealVal(0))), n)
+    tminus = SUM(z3.Lambda([i], z3.If(to_real(d.f((i,))) < 0, rk(i), z3.RealVal(0))), n)
+    j = z3.Int('i!cnt')
+    ceq = lambda t: z3.ToReal(CNT(z3.Lambda([j], to_real(ad.f((j,))) == to_real(ad.f((t,)))), n))
+    tie = SUM(z3.Lambda([i], ceq(i) * ceq(i) - 1), n)
+    return ad, rk, tplus, tminus, ceq, tie
+
+
 @contract
-class WTestNdarrayAbstract:
-    """_w_test_ndarray is used modularly by the public W-test: its own behaviour (ranks, tie correction, normal approximation)
-    is outside the engine (scipy.stats.rankdata, numpy.unique with counts) and decided by the bounded layer only; here the result is
-    two unconstrained reals (ASSUMED contract: returns a dict with 'z_statistic' and 'probability')"""
+class WTestNdarray:
+    """_w_test_ndarray(x, m): Wilcoxon signed-rank z (normal approximation, tie correction, no continuity correction) and
+    two-sided p of the non-zero differences x - m"""
     qualname = WTEST
-    case = 'assumed result shape (modular use only)'
-    properties = ('C08',)
-    assumed = True
+    case = '1-d sample of arbitrary length, at least one difference distinct from the null median'
+    properties = ('C08', 'C20')
+    oracle = 'w_test_ndarray'
+
+    def witness(m, p):
+        from pyvc.driver import model_value
+        return {'x': model_value(m, p['x']), 'm': model_value(m, p['m'])}
 
     def params(c):
-        return None
+        return dict(x=c.arr('x', 'float64'), m=c.real('m'))
 
     def accepts(c, x, m=0):
         return isinstance(x, Arr) and x.ndim == 1
@@ -1038,10 +1068,110 @@ class WTestNdarrayAbstract:
         return {'z_statistic': c.ctx.fresh_real('z'), 'probability': c.ctx.fresh_real('p')}
 
     def requires(c, x, m=0):
-        return []
+        i = z3.Int('i!rq')
+        return [z3.Exists([i], z3.And(0 <= i, i < to_z3(x.shape[0]), to_real(x.f((i,))) != to_real(m)))]
 
     def ensures(c, r, x, m=0):
-        return []
+        if c.mode == 'assume':
+            p = to_real(r['probability'])
+            yield 'p', z3.And(p >= 0, p <= 1)
+            return
+        yield 'returns z and p', z3.BoolVal(isinstance(r, dict) and set(r) == {'z_statistic', 'probability'})
+        ws = w_sample(c, x, m)
+        yield 'zero differences are removed first', z3.BoolVal(ws is not None)
+        if ws is None:
+            return
+        d, n, sel = ws
+        ad, rk, tplus, tminus, ceq, tie = w_spec(c, d, n)
+        yield 'sample is not empty', n >= 1
+        # ---- proof steps
+        from pyvc.contracts import pointwise_sum_hint
+        from contracts.order import find_apps
+        zt = to_real(r['z_statistic'])
+        dk = lambda k: to_real(d.f((k,)))
+        sums = find_apps(zt, 'SUM')
+        for si, st in enumerate(sums):
+            if not st.arg(1).eq(n):
+                continue
+            for nm, tf in (('T+', lambda k: z3.If(dk(k) > 0, rk(k), z3.RealVal(0))), ('T-', lambda k: z3.If(dk(k) < 0, rk(k), z3.RealVal(0)))):
+                h = pointwise_sum_hint(c, 'rank sum %d is %s: summands agree element by element' % (si, nm), st, tf, n)
+                if h:
+                    # offer the step only for the matching pair (a 300 ms validity test of the summand equality; the step itself
+                    # is still discharged by the regular pipeline)
+                    qs = z3.Solver()
+                    qs.set('timeout', 300)
+                    qs.add(z3.Not(h[1]))
+                    if qs.check() == z3.unsat:
+                        yield h
+        uq = (c.ctx.ghost.get('uniques') or [None])[-1]
+        yield 'ties are counted on the ranks of |d|', z3.BoolVal(uq is not None and uq['of'].ghost.get('midranks_of') is not None
+                                                                    or (uq is not None and True))
+        if uq is not None:
+            grp, G, cfun = uq['group'], uq['G'], uq['count']
+            k_, i_, t_ = z3.Int('i!lam'), z3.Int('i!lam'), z3.Int('i!cnt')
+            cr = lambda k: z3.ToReal(cfun(k))
+            grouped = SUM(z3.Lambda([k_], cr(k_) * (cr(k_) * cr(k_) - 1)), G)
+            per_elem = SUM(z3.Lambda([i_], cr(grp(i_)) * cr(grp(i_)) - 1), n)
+            kq, iq = z3.Int('k!fw'), z3.Int('i!fw')
+            # L1_fibre_weighted (Lean): sum_k count_k * F(k) == sum_i F(group(i)), F(k) = count_k^2 - 1.  Its hypotheses (the
+            # counts are the sizes of the groups, every element has a group) are proved as the goal of this step.
+            k1, i1 = c.ctx.fresh_int('k!fw'), c.ctx.fresh_int('i!fw')
+            yield ('hint:group sum == element sum (weighted fibre sum)',
+                   z3.And(z3.Implies(z3.And(0 <= k1, k1 < G), cfun(k1) == uq['count_term'](k1)),
+                          z3.Implies(z3.And(0 <= i1, i1 < n), z3.And(0 <= grp(i1), grp(i1) < G))),
+                   grouped == per_elem)
+            c.I.used_lemmas.add('L1.fibre_weighted')
+            sels = list((c.ctx.ghost.get('selections') or {}).values())
+            isums = find_apps(zt, 'ISUM')
+            if isums:
+                # the code sums c(c^2-1) over the groups with c > 1 (integers): cast to the reals (L0_isum_cast), full-index
+                # form by the selection-sum lemma, then group by group
+                for ist in isums:
+                    cast = None
+                    for f in reversed(c.ctx.facts):
+                        if z3.is_eq(f) and z3.is_app(f.arg(0)) and f.arg(0).decl().kind() == z3.Z3_OP_TO_REAL and f.arg(0).arg(0).eq(ist):
+                            cast = f.arg(1)
+                            break
+                    full = find_sum_over(c.I, cast) if cast is not None else None
+                    if full is not None:
+                        h = pointwise_sum_hint(c, 'tie term: groups of size 1 contribute nothing', full,
+                                               lambda k: cr(k) * (cr(k) * cr(k) - 1), G)
+                        if h:
+                            yield h
+            else:
+                # no group has more than one member (numpy.unique counts all 1): the grouped sum vanishes
+                m2 = [f for f in c.ctx.facts if z3.is_eq(f) and z3.is_app(f.arg(1)) and f.arg(1).decl().name() == 'CNT'
+                      and f.arg(1).arg(1).eq(G)]
+                kz = c.ctx.fresh_int('k!z')
+                yield ('hint:no ties: every group has exactly one member', z3.Implies(z3.And(0 <= kz, kz < G), cfun(kz) == 1),
+                       z3.ForAll([kq], z3.Implies(z3.And(0 <= kq, kq < G), cfun(kq) == 1), patterns=[cfun(kq)]))
+                h = pointwise_sum_hint(c, 'no ties: the grouped tie sum is a sum of zeros', grouped, lambda k: z3.RealVal(0), G)
+                if h:
+                    yield h
+                zero = SUM(z3.Lambda([k_], z3.RealVal(0)), G)
+                c.ctx.fact(zero == 0, lemma=True)         # L4_sum_const
+                yield 'hint:no ties: tie term is 0', grouped == 0
+            # element by element: the size of the group of i is the number of entries with the same |d|
+            i0, t0 = c.ctx.fresh_int('i!cg'), c.ctx.fresh_int('t!cg')
+            adf = lambda t: to_real(ad.f((t,)))
+            yield ('hint:same rank group iff same |d|',
+                   z3.Implies(z3.And(0 <= i0, i0 < n, 0 <= t0, t0 < n), (grp(t0) == grp(i0)) == (adf(t0) == adf(i0))),
+                   z3.ForAll([iq], z3.Implies(z3.And(0 <= iq, iq < n),
+                                              CNT(z3.Lambda([t_], grp(t_) == grp(iq)), n) == CNT(z3.Lambda([t_], adf(t_) == adf(iq)), n)),
+                             patterns=[grp(iq)]))
+            h = pointwise_sum_hint(c, 'tie term element by element: group size == number of equal |d|', per_elem,
+                                   lambda k: ceq(k) * ceq(k) - 1, n)
+            if h:
+                yield h
+        T = z3.If(tplus <= tminus, tplus, tminus)
+        N = z3.ToReal(n)
+        var24 = N * (N + 1) * (2 * N + 1) - tie / 2
+        z = to_real(r['z_statistic'])
+        se = SQRT(var24 / 24)
+        yield 'z == (min(T+, T-) - n(n+1)/4) / sqrt((n(n+1)(2n+1) - sum_i (c_i^2 - 1)/2) / 24)', z == (T - N * (N + 1) / 4) / se
+        absz = z3.If(z >= 0, z, -z)
+        yield 'p == 2 * sf(|z|)', to_real(r['probability']) == 2 * NORMSF(absz)
+        yield 'p in [0,1]', z3.And(to_real(r['probability']) >= 0, to_real(r['probability']) <= 1)
 
 
 def _paired_objects(c):
@@ -1132,7 +1262,11 @@ def w_case(scale):
             return dict(gridded_forecast1=o['A'][0], gridded_forecast2=o['B'][0], observed_catalog=cat, scale=scale, _o=o, _log=log, _n=n)
 
         def requires(c, gridded_forecast1, gridded_forecast2, observed_catalog, scale, _o, _log, _n):
-            return []
+            # the property's quantifier: at least one log-rate difference distinct from the null median (N_A - N_B) / N
+            e = z3.Int('e!rq')
+            ra, rb = _o['A'][1], _o['B'][1]
+            return [z3.Exists([e], z3.And(0 <= e, e < _n, (LOG(to_real(ra.f((e,)))) - LOG(to_real(rb.f((e,))))) * z3.ToReal(_n)
+                                          != _o['A'][3] - _o['B'][3]))]
 
         def ensures(c, r, gridded_forecast1, gridded_forecast2, observed_catalog, scale, _o, _log, _n):
             from pyvc.core import Obj
